@@ -821,6 +821,15 @@ class BlockBase(Base):
                             content[-1].get_end_label(),
                         )
                         if start_label != end_label:
+                            if isinstance(obj, di.End_Do_Stmt):
+                                # An END DO that does not carry the label of
+                                # this DO cannot terminate it, and it cannot
+                                # belong to a nested DO either (that would
+                                # have been matched as a construct), so this
+                                # is not a match.
+                                for obj in reversed(content):
+                                    obj.restore_reader(reader)
+                                return None
                             continue
                     if match_names:
                         start_name, end_name = (
